@@ -2007,9 +2007,41 @@ def _first_callee(az, fid, rec):
 # ------------------------------------------------------------------------------------------------
 # outputs
 # ------------------------------------------------------------------------------------------------
+MEMO_DECORATORS = {"lru_cache", "cache", "cached_property", "memoize", "memoized", "cached"}
+
+
+def memoised_functions(repo):
+    """functions of the package wrapped in a memoising decorator: their cache is a process-global object
+    that every caller shares (a value returned from it and stored on an instance is shared between
+    instances).  Found syntactically; returned as (qualified name, file:line)."""
+    import ast as _ast
+    out = []
+    root = os.path.join(repo, "aquacrop")
+    for dp, _dn, fns in os.walk(root):
+        for f in sorted(fns):
+            if not f.endswith(".py"):
+                continue
+            path = os.path.join(dp, f)
+            try:
+                tree = _ast.parse(open(path, encoding="utf-8").read())
+            except Exception:  # noqa: BLE001
+                continue
+            for n in _ast.walk(tree):
+                if isinstance(n, (_ast.FunctionDef, _ast.AsyncFunctionDef)):
+                    for d in n.decorator_list:
+                        t = d.func if isinstance(d, _ast.Call) else d
+                        nm = t.attr if isinstance(t, _ast.Attribute) else (t.id if isinstance(t, _ast.Name) else "")
+                        if nm in MEMO_DECORATORS:
+                            rel = os.path.relpath(path, repo)
+                            out.append((rel[:-3].replace(os.sep, ".") + "." + n.name, "%s:%d" % (f, n.lineno)))
+    return sorted(out)
+
+
 def table_rows(res):
     """deduplicated rows of the Lean table: one per (region, fn, cls, path); site = first site"""
     rows = {}
+    for qn, site in memoised_functions(getattr(res.prog, "repo", None) or getattr(res.prog, "root", "/repo")):
+        rows[("construct", qn, "global", "<cache of memoised %s>" % qn)] = site
     for rname in ("construct", "init", "step"):
         for e in res.regions[rname]:
             k = (rname, e["fn"], e["cls"], e["path"])
